@@ -16,6 +16,20 @@ func (kgraph *KVGraph) AddGraph(graph string) error {
 		return err
 	}
 
+	exists := false
+	for _, gname := range kgraph.ListGraphs() {
+		if graph == gname {
+			exists = true
+		}
+	}
+	if !exists {
+		// an interrupted DeleteGraph of an earlier graph of this name may have
+		// left elements and index entries behind: the new graph starts empty
+		if err := kgraph.purgeGraph(graph); err != nil {
+			return err
+		}
+	}
+
 	kgraph.ts.Touch(graph)
 	err = kgraph.setupGraphIndex(graph)
 	if err != nil {
@@ -24,27 +38,33 @@ func (kgraph *KVGraph) AddGraph(graph string) error {
 	return kgraph.kv.Set(GraphKey(graph), []byte{})
 }
 
-// DeleteGraph deletes `graph`
+// DeleteGraph deletes `graph`. The graph key is removed first: from then on
+// the graph does not exist, so an interrupted call never exposes a graph that
+// has lost part of its elements or indexes; what it leaves behind is removed
+// when the call is repeated or a graph of that name is created again.
 func (kgraph *KVGraph) DeleteGraph(graph string) error {
 	kgraph.ts.Touch(graph)
 
-	eprefix := EdgeListPrefix(graph)
-	kgraph.kv.DeletePrefix(eprefix)
+	if err := kgraph.kv.Delete(GraphKey(graph)); err != nil {
+		return err
+	}
+	return kgraph.purgeGraph(graph)
+}
 
-	vprefix := VertexListPrefix(graph)
-	kgraph.kv.DeletePrefix(vprefix)
-
-	sprefix := SrcEdgeListPrefix(graph)
-	kgraph.kv.DeletePrefix(sprefix)
-
-	dprefix := DstEdgeListPrefix(graph)
-	kgraph.kv.DeletePrefix(dprefix)
-
-	graphKey := GraphKey(graph)
-	kgraph.kv.Delete(graphKey)
-
+// purgeGraph removes the elements, adjacency entries and indexes stored under
+// the name `graph`
+func (kgraph *KVGraph) purgeGraph(graph string) error {
+	for _, prefix := range [][]byte{
+		EdgeListPrefix(graph),
+		VertexListPrefix(graph),
+		SrcEdgeListPrefix(graph),
+		DstEdgeListPrefix(graph),
+	} {
+		if err := kgraph.kv.DeletePrefix(prefix); err != nil {
+			return err
+		}
+	}
 	kgraph.deleteGraphIndex(graph)
-
 	return nil
 }
 
